@@ -1,7 +1,7 @@
 (* Props/C10.v — C10: re-exporting a decoded IPFIX message reproduces the bytes it came from.
    Theorems only; same shape as C09 (the value-level predicate exact_dtype is shared). *)
 From NF Require Import Base Nom Types Layout Value Ipfix Parser Export.
-From NF Require Import ReexportFacts ExportFacts VarFacts RunFacts TotalFacts PacketFacts.
+From NF Require Import ReexportFacts ExportFacts VarFacts RunFacts TotalFacts PacketFacts IxPacketFacts.
 Open Scope list_scope.
 
 Theorem C10_value : forall puf dt len i v r,
@@ -50,6 +50,31 @@ Theorem C10_data_set_roundtrip : forall puf fs body ents pad r,
   export_ix_body (IxData ents pad) = XOk body.
 Proof. exact parse_idata_reexport. Qed.
 Print Assumptions C10_data_set_roundtrip.
+
+(* THE ROUND TRIP, whole message: every IPFIX message parse_bytes reports (any state, allowed
+   set, mix of template / options-template / data / options-data sets, padding, templates cached
+   earlier) re-exports to EXACTLY the bytes it occupied, provided (ix_lossless, decidable on the
+   reported message and the caches it met) its data sets are governed by templates without
+   variable-length fields, their values are of the lossless kinds, and the reported sets fill the
+   message length (no set was dropped).  The three excluded situations are the classes
+   K_C10_varlen_prefix, K_C10_{duration,mac,string_lossy,proto_unknown,signed_widened} and
+   K_C10_sets_dropped. *)
+Theorem C10_message_roundtrip : forall puf allow s x p rest s',
+  parse_one puf allow s x = StOk (PIx p) rest s' -> ix_lossless (stx s) p = true ->
+  exists pre, x = pre ++ rest /\ export_ipfix p = XOk pre.
+Proof. exact ix_step_reexport. Qed.
+Print Assumptions C10_message_roundtrip.
+
+(* non-vacuity: a message with a template set, an options template set and a data set for the
+   template just defined (two records, two padding bytes) is reported, is ix_lossless from the
+   empty cache, and re-exports to itself *)
+Example C10_message_example :
+  let msg := [x00; x0a; x00; x40; x00; x00; x00; x01; x00; x00; x00; x02; x00; x00; x00; x03; x00; x02; x00; x10; x01; x00; x00; x02; x00; x08; x00; x04; x00; x07; x00; x02; x00; x03; x00; x0e; x01; x01; x00; x01; x00; x01; x00; x04; x00; x01; x01; x00; x00; x12; x0a; x00; x00; x01; x01; xbb; xc0; xa8; x01; x01; x00; x35; x00; x00] in
+  match parse_one true (allow_list default_allowed) empty_state msg with
+  | StOk (PIx p) [] _ => ix_lossless ix_empty p = true /\ export_ipfix p = XOk msg /\ length (ix_sets p) = 3%nat
+  | _ => False
+  end.
+Proof. vm_compute. repeat split; reflexivity. Qed.
 
 Theorem C10_no_panic : forall puf allow s x r,
   parse_bytes puf allow s x = Some r -> Forall (fun es => export_elem (fst es) <> Some XPanic) r.
